@@ -57,21 +57,36 @@ def ensure_built():
         want = _hash(r)
         have = open(stamp).read().strip() if os.path.exists(stamp) else ''
         if have != want or _missing(r):
-            # force: sources may be older than stale .so after a checkout
+            # build out of place and move the finished extension modules in atomically, so that a check running at the
+            # same time never sees a missing or half-written .so; .c files are removed so that Cython regenerates them
+            import shutil
             for p in _sources(r):
                 if p.endswith('.pyx'):
-                    for so in glob.glob(p[:-4] + '.*.so'):
-                        os.remove(so)
                     c = p[:-4] + '.c'
                     if os.path.exists(c):
                         os.remove(c)
+            blib = os.path.join(cache, 'buildlib-%s' % tag)
+            btmp = os.path.join(cache, 'buildtmp-%s' % tag)
+            shutil.rmtree(blib, ignore_errors=True); shutil.rmtree(btmp, ignore_errors=True)
             env = dict(os.environ)
             env.pop('PYTHONPATH', None)
-            proc = subprocess.run([sys.executable, 'setup.py', 'build_ext', '--inplace', '-j', '8'], cwd=r,
-                                  stdout=subprocess.PIPE, stderr=subprocess.STDOUT, env=env)
-            if proc.returncode != 0 or _missing(r):
+            proc = subprocess.run([sys.executable, 'setup.py', 'build_ext', '--build-lib', blib, '--build-temp', btmp, '-j', '8'],
+                                  cwd=r, stdout=subprocess.PIPE, stderr=subprocess.STDOUT, env=env)
+            built = glob.glob(os.path.join(blib, 'atomman', '*', '*.so'))
+            if proc.returncode != 0 or len(built) < sum(1 for p in _sources(r) if p.endswith('.pyx')):
                 sys.stderr.write(proc.stdout.decode(errors='replace')[-3000:])
                 raise RuntimeError('extension build failed in %s' % r)
+            for so in built:
+                dst = os.path.join(r, os.path.relpath(so, blib))
+                for old in glob.glob(dst.split('.')[0] + '.*.so'):
+                    if os.path.abspath(old) != os.path.abspath(dst):
+                        os.remove(old)
+                tmpdst = dst + '.tmp'
+                shutil.copy2(so, tmpdst)
+                os.replace(tmpdst, dst)
+            shutil.rmtree(blib, ignore_errors=True); shutil.rmtree(btmp, ignore_errors=True)
+            if _missing(r):
+                raise RuntimeError('extension build incomplete in %s' % r)
             with open(stamp, 'w') as f:
                 f.write(want)
     return r
